@@ -507,6 +507,153 @@ Proof.
   - rewrite L. reflexivity.
 Qed.
 
+(* build_spec: the section's own declarations win, base specs only fill in the keys not declared before them *)
+Fixpoint first_decl (k : str) (specs : list spec) : option sentry :=
+  match specs with
+  | [] => None
+  | s :: t => match spec_get k s with Some e => Some e | None => first_decl k t end
+  end.
+
+Lemma zs_eqb_refl a : zs_eqb a a = true.
+Proof. apply zs_eqb_spec. reflexivity. Qed.
+Lemma zs_eqb_neq a b : a <> b -> zs_eqb a b = false.
+Proof. intro H. destruct (zs_eqb a b) eqn:E; [apply zs_eqb_spec in E; contradiction|reflexivity]. Qed.
+
+Lemma spec_get_set_same k e s : spec_get k (spec_set k e s) = Some e.
+Proof.
+  induction s as [|[k' e'] s IH]; cbn [spec_set spec_get].
+  - rewrite zs_eqb_refl. reflexivity.
+  - destruct (zs_eqb k k') eqn:E; cbn [spec_get]; rewrite E; [reflexivity|exact IH].
+Qed.
+
+Lemma spec_get_set_other k k' e s : k <> k' -> spec_get k (spec_set k' e s) = spec_get k s.
+Proof.
+  intro Hne. induction s as [|[k0 e0] s IH]; cbn [spec_set spec_get].
+  - rewrite (zs_eqb_neq _ _ Hne). reflexivity.
+  - destruct (zs_eqb k' k0) eqn:E; cbn [spec_get].
+    + apply zs_eqb_spec in E. subst k0. rewrite (zs_eqb_neq _ _ Hne). reflexivity.
+    + destruct (zs_eqb k k0); [reflexivity|exact IH].
+Qed.
+
+Lemma spec_get_none_notin k s : ~ In k (map fst s) -> spec_get k s = None.
+Proof.
+  induction s as [|[k0 e0] s IH]; cbn [map fst spec_get In]; intro H; [reflexivity|].
+  rewrite zs_eqb_neq by (intro E; apply H; left; symmetry; exact E).
+  apply IH. intro Hc. apply H. right. exact Hc.
+Qed.
+
+Lemma spec_set_keys k e s k' : In k' (map fst (spec_set k e s)) <-> k' = k \/ In k' (map fst s).
+Proof.
+  induction s as [|[k0 e0] s IH]; cbn [spec_set map fst In].
+  - intuition.
+  - destruct (zs_eqb k k0) eqn:E; cbn [map fst In].
+    + apply zs_eqb_spec in E. subst k0. intuition.
+    + rewrite IH. intuition.
+Qed.
+
+Lemma spec_set_nodup k e s : NoDup (map fst s) -> NoDup (map fst (spec_set k e s)).
+Proof.
+  induction s as [|[k0 e0] s IH]; cbn [spec_set map fst]; intro H.
+  - constructor; [intros []|constructor].
+  - inversion H as [|x xs Hn Hd]; subst. destruct (zs_eqb k k0) eqn:E; cbn [map fst].
+    + constructor; assumption.
+    + constructor; [|apply IH; assumption].
+      rewrite spec_set_keys. intros [Hc|Hc]; [|contradiction].
+      subst k0. rewrite zs_eqb_refl in E. discriminate E.
+Qed.
+
+Lemma spec_update_get k : forall over base,
+  NoDup (map fst over) ->
+  spec_get k (spec_update base over) = match spec_get k over with Some e => Some e | None => spec_get k base end.
+Proof.
+  unfold spec_update. induction over as [|[k1 e1] t IH]; intros base Hnd; cbn [fold_left spec_get fst snd].
+  - reflexivity.
+  - inversion Hnd as [|x xs Hn Hd]; subst. rewrite (IH _ Hd).
+    destruct (zs_eqb k k1) eqn:E.
+    + apply zs_eqb_spec in E. subst k1. rewrite (spec_get_none_notin _ _ Hn). apply spec_get_set_same.
+    + destruct (spec_get k t); [reflexivity|]. apply spec_get_set_other.
+      intro Hc. subst k1. rewrite zs_eqb_refl in E. discriminate E.
+Qed.
+
+Lemma spec_update_nodup : forall over base, NoDup (map fst base) -> NoDup (map fst (spec_update base over)).
+Proof.
+  unfold spec_update. induction over as [|[k1 e1] t IH]; intros base H; cbn [fold_left]; [exact H|].
+  apply IH. apply spec_set_nodup. exact H.
+Qed.
+
+Lemma build_spec_get k : forall specs acc,
+  Forall (fun s => NoDup (map fst s)) specs -> NoDup (map fst acc) ->
+  spec_get k (fold_left (fun this elem => spec_update elem this) specs acc) =
+  match spec_get k acc with Some e => Some e | None => first_decl k specs end.
+Proof.
+  induction specs as [|s t IH]; intros acc Hf Ha; cbn [fold_left first_decl].
+  - destruct (spec_get k acc); reflexivity.
+  - inversion Hf as [|x xs Hs Ht]; subst.
+    rewrite (IH _ Ht (spec_update_nodup _ _ Hs)). rewrite (spec_update_get _ _ _ Ha).
+    destruct (spec_get k acc); reflexivity.
+Qed.
+
+Lemma build_spec_own_first_l k specs :
+  Forall (fun s => NoDup (map fst s)) specs -> spec_get k (build_spec specs) = first_decl k specs.
+Proof. intro Hf. unfold build_spec. rewrite (build_spec_get k specs [] Hf (NoDup_nil _)). reflexivity. Qed.
+
+Lemma build_spec_nodup_l specs :
+  Forall (fun s => NoDup (map fst s)) specs -> NoDup (map fst (build_spec specs)).
+Proof.
+  unfold build_spec. assert (G : forall specs acc, Forall (fun s => NoDup (map fst s)) specs -> NoDup (map fst acc) ->
+    NoDup (map fst (fold_left (fun this elem => spec_update elem this) specs acc))).
+  { clear. induction specs as [|s t IH]; intros acc Hf Ha; cbn [fold_left]; [exact Ha|].
+    inversion Hf; subst. apply IH; [assumption|]. apply spec_update_nodup. assumption. }
+  intro Hf. apply G; [exact Hf|constructor].
+Qed.
+
+(* any HISTORY of validations against one validator: the specs never change, the cache stays coherent, and
+   every answer is the answer of a validation against a fresh merge of the original specs *)
+Lemma lookup_specs_ext st st' names :
+  st_specs st' = st_specs st -> lookup_specs st' names = lookup_specs st names.
+Proof. intro E. unfold lookup_specs. rewrite E. reflexivity. Qed.
+
+Lemma cache_hit_lookup st names sp :
+  cache_ok st -> names_get names (st_cache st) = Some sp -> exists specs, lookup_specs st names = Some specs.
+Proof. intros Hc H. destruct (Hc _ _ H) as [specs [L _]]. eauto. Qed.
+
+Lemma step_result_fresh m ai add st names src :
+  cache_ok st ->
+  snd (validate_config_st m ai add st names src) = fresh_validate m ai st (add, names, src).
+Proof.
+  intro Hc. unfold fresh_validate. destruct (lookup_specs st names) as [specs|] eqn:L.
+  - apply store_result_fresh; assumption.
+  - unfold validate_config_st. destruct (names_get names (st_cache st)) as [sp|] eqn:E.
+    + destruct (cache_hit_lookup _ _ _ Hc E) as [specs L']. rewrite L in L'. discriminate L'.
+    + rewrite L. reflexivity.
+Qed.
+
+Lemma fresh_validate_ext m ai st st' step :
+  st_specs st' = st_specs st -> fresh_validate m ai st' step = fresh_validate m ai st step.
+Proof.
+  intro E. destruct step as [[add names] src]. unfold fresh_validate.
+  rewrite (lookup_specs_ext _ _ _ E). reflexivity.
+Qed.
+
+Lemma history_l m ai : forall steps st,
+  cache_ok st ->
+  st_specs (fst (run_steps m ai st steps)) = st_specs st /\
+  cache_ok (fst (run_steps m ai st steps)) /\
+  snd (run_steps m ai st steps) = map (fresh_validate m ai st) steps.
+Proof.
+  induction steps as [|[[add names] src] t IH]; intros st Hc; cbn [run_steps].
+  - cbn. auto.
+  - pose proof (spec_unchanged_l m ai add st names src) as Hs.
+    pose proof (cache_ok_preserved m ai add st names src Hc) as Hc1.
+    pose proof (step_result_fresh m ai add st names src Hc) as Hr.
+    destruct (validate_config_st m ai add st names src) as [st1 r] eqn:E1. cbn [fst snd] in Hs, Hc1, Hr.
+    destruct (IH st1 Hc1) as [Ha [Hb Hd]].
+    destruct (run_steps m ai st1 t) as [st2 rs] eqn:E2. cbn [fst snd] in *.
+    split; [congruence|]. split; [assumption|].
+    cbn [map]. rewrite Hr, Hd. f_equal.
+    apply map_ext. intro step. apply fresh_validate_ext. assumption.
+Qed.
+
 (* ---------------------------------------------------------------------------------------------- *)
 (* 5. time strings: the TRANSLATED suffix chain (gen/Time.v) gives value times unit                 *)
 From C12 Require Import FloatLemmas.
@@ -721,6 +868,27 @@ Example ex_time_1001 :
   string_to_ms (YStr (([49;46;48;48] ++ [49]) ++ [115])) = Ok 1001 /\
   string_to_ms (YStr [50;48;48;109;115;101;99]) = Ok 200.                         (* "200msec" *)
 Proof. vm_compute. repeat split. Qed.
+
+(* section declares a: int(0,255) default 5; the base declares a: str default "x" and c *)
+Example ex_own_first :
+  let base := [([97], SItem s_single n_str [120]); ([99], SItem s_single n_str [121])] in
+  Forall (fun s => NoDup (map fst s)) [ex_spec; base] /\
+  spec_get [97] (build_spec [ex_spec; base]) = Some (SItem s_single v_int_0_255 [53]) /\
+  spec_get [99] (build_spec [ex_spec; base]) = Some (SItem s_single n_str [121]).
+Proof.
+  cbn zeta. split; [|split; vm_compute; reflexivity].
+  repeat constructor; cbn; intuition discriminate.
+Qed.
+
+Example ex_history :
+  let st := {| st_specs := [([115], ex_spec); ([116], [([97], SItem s_single n_str [120])])]; st_cache := [] |} in
+  cache_ok st /\
+  snd (run_steps ex_machine false st
+         [(true, [[115]; [116]], YDict []); (true, [[116]; [115]], YDict []); (true, [[115]; [116]], YDict [(YStr [97], YInt 7)])]) =
+    [Ok (YDict [(YStr [97], YInt 5); (YStr [98], YList [])]);
+     Ok (YDict [(YStr [97], YStr [120]); (YStr [98], YList [])]);
+     Ok (YDict [(YStr [97], YInt 7); (YStr [98], YList [])])].
+Proof. split; [intros n sp H; discriminate H|vm_compute; reflexivity]. Qed.
 
 Example ex_store :
   let st := {| st_specs := [([115], ex_spec)]; st_cache := [] |} in
